@@ -1696,8 +1696,9 @@ class Segment(Element):
 
     def add(self, obj):
         super(Segment, self).add(obj)
-        # updates the index of the last children not allowed
-        if obj.name and self.allow_infinite_children:
+        # updates the index of the last children not allowed (a field created while navigating
+        # counts only once it is written, i.e. when this segment has become its parent)
+        if obj.name and self.allow_infinite_children and obj.parent is self:
             field_index = int(obj.name[4:])
             if field_index > self._last_child_index:
                 self._last_child_index = field_index
